@@ -59,9 +59,193 @@ package xsync
 //@ define tableInv(t) = tblShape(t) && chains(t) && roots(t) && chainsInj(t) && slots(t) && viewSlots(t)
 //@ define mapRI(m) = m != nil && tableInv(tab(m)) && view(m) == tview[tab(m)]
 
+// ---------------------------------------------------------------------------------------------
+// Disciplines on the table layer (C13 lock set / monitor, C14 access classes, C05 invocation counts, C16 effects).
+// These contracts only state what the disciplines need; loop invariants are minimal on purpose.
+// ---------------------------------------------------------------------------------------------
+//@ func lockBucket
+//@   requires mu != nil && (deref(mu) & 1) == 0
+//@   effect acquires mu
+//@   modifies mem(deref(mu))
+//@   loop for.body.0: invariant free: deref(mu) == old(deref(mu))
+//@   loop for.body.1: invariant free: deref(mu) == old(deref(mu))
+//@   ensures {C13,C14} post.lockbit: deref(mu) == old(deref(mu)) | 1
+
+//@ func unlockBucket
+//@   requires mu != nil
+//@   effect releases mu
+//@   modifies mem(deref(mu))
+//@   ensures {C13,C14} post.lockbit: deref(mu) == old(deref(mu)) &^ 1
+
+//@ -- twin-begin MapDisc
+//@ func (*Map).resizeInProgress
+//@   requires m != nil
+//@   ensures {C16} effect.nolock: nacquire() == 0 && nblocking() == 0
+//@   ensures {C03} post.value: res0 == (m.resizing == 1)
+
+//@ func (*Map).newerTableExists
+//@   requires m != nil
+//@   ensures {C16} effect.nolock: nacquire() == 0 && nblocking() == 0
+
+//@ func (*Map).waitForResize
+//@   requires m != nil
+//@   effect blocking nolocks
+//@   modifies allmem, allghost
+//@   loop for.loop: invariant param: true
+//@   ensures {C13} post.released: nheld() == 0
+
+//@ func (*Map).resize
+//@   requires m != nil && knownTable != nil && tblShape(knownTable) && tblShape(tab(m)) && pow2(m.minTableLen) && 0 <= hint && hint <= 2
+//@   effect blocking nolocks
+//@   modifies allmem, allghost
+//@   loop for.loop: invariant shape: newTable != nil && tblShape(newTable) && tblShape(table) && table != nil && 0 <= i
+//@   ensures {C13} monitor.no-lost-wakeup: monitorOK()
+//@   ensures {C13} post.released: nheld() == 0
+
+//@ func (*mapTable).sumSize
+//@   requires table != nil && wfslice(table.size)
+//@   loop rangeindex.loop: invariant idx: rangeindex >= -1 && rangeindex < len(table.size)
+//@   ensures {C16} effect.nolock: nacquire() == 0 && nblocking() == 0
+
+//@ func (*mapTable).addSize
+//@   requires table != nil && wfslice(table.size) && pow2(len(table.size))
+//@   modifies allmem
+//@   ensures {C16} effect.nolock: nacquire() == 0 && nblocking() == 0
+
+//@ func (*mapTable).addSizePlain
+//@   requires table != nil && wfslice(table.size) && pow2(len(table.size))
+//@   effect builder
+//@   modifies allmem
+//@ func appendToBucket
+//@   requires b != nil
+//@   effect builder
+//@   modifies allmem, allghost
+//@   loop for.body: invariant cursor: b != nil
+//@   loop for.loop: invariant idx: 0 <= i && i <= 3 && b != nil
+//@   ensures {C16} effect.nolock: nacquire() == 0 && nblocking() == 0
+
+//@ func copyBucket
+//@   requires b != nil && (b.topHashMutex & 1) == 0 && destTable != nil && tblShape(destTable)
+//@   effect nolocks builder
+//@   modifies allmem, allghost
+//@   loop for.body: invariant cursor: b != nil && rootb == old(b) && destTable == old(destTable) && tblShape(destTable)
+//@   loop for.loop: invariant idx: 0 <= i && i <= 3 && b != nil && rootb == old(b) && destTable == old(destTable) && tblShape(destTable)
+
+//@ func isEmptyBucket
+//@   requires rootb != nil
+//@   effect entersheld addr(rootb.topHashMutex)
+//@   loop for.body: invariant cursor: b != nil
+//@   loop for.loop: invariant idx: 0 <= i && i <= 3 && b != nil
+//@   ensures {C16} effect.nolock: nacquire() == 0 && nblocking() == 0
+
+//@ func (*Map).doCompute
+//@   requires m != nil && valueFn != nil
+//@   requires private tblShape(tab(m)) && pow2(m.minTableLen)
+//@   opaque pure valueFn
+//@   modifies allmem, allghost
+//@   loop compute_attempt: invariant {C05} noinvocation: ncb(valueFn) == 0 && nheld() == 0
+//@   loop compute_attempt: invariant shape: tblShape(tab(m)) && pow2(m.minTableLen)
+//@   loop for.body: invariant cursor: b != nil && rootb != nil && holds(addr(rootb.topHashMutex)) && table != nil && tblShape(table) && (emptyb != nil ==> 0 <= emptyidx && emptyidx < 3) && ncb(valueFn) == 0
+//@   loop for.loop: invariant idx: 0 <= i && i <= 3 && b != nil && rootb != nil && holds(addr(rootb.topHashMutex)) && table != nil && tblShape(table) && (emptyb != nil ==> 0 <= emptyidx && emptyidx < 3) && ncb(valueFn) == 0
+//@   oncall valueFn: {C05,C13} under-root-lock: nheld() == 1 && holds(addr(rootb.topHashMutex))
+//@   oncall valueFn: {C05,C03} validated: validated()
+//@   ensures {C05} valueFn.atmostonce: ncb(valueFn) <= 1
+//@   ensures {C05} valueFn.once-unless-loaded: ncb(valueFn) == 1 || loadIfExists
+//@   ensures {C16} fastpath.nolock: loadIfExists && ncall("Load") == 1 && lastret("Load", 1) ==> nacquire() == 0 && nblocking() == 0
+
+//@ -- twin-end MapDisc
+
+// ---- MapOf: the same disciplines (bucket mutex instead of the lock bit, 5 entries per bucket, SWAR meta word) ----
+//@ purefn hasher
+//@ define tabOf(m) = as(m.table, "*mapOfTable")
+//@ define tblShapeOf(t) = t != nil && wfslice(t.buckets) && pow2(len(t.buckets)) && wfslice(t.size) && pow2(len(t.size))
+//@ define markOK(w) = (w & 18446743521853636735) == 0
+
+//@ func (*MapOf[K, V]).resizeInProgress
+//@   requires m != nil
+//@   ensures {C16} effect.nolock: nacquire() == 0 && nblocking() == 0
+//@   ensures {C04} post.value: res0 == (m.resizing == 1)
+
+//@ func (*MapOf[K, V]).newerTableExists
+//@   requires m != nil
+//@   ensures {C16} effect.nolock: nacquire() == 0 && nblocking() == 0
+
+//@ func (*MapOf[K, V]).waitForResize
+//@   requires m != nil
+//@   effect blocking nolocks
+//@   modifies allmem, allghost
+//@   loop for.loop: invariant param: true
+//@   ensures {C13} post.released: nheld() == 0
+
+//@ func (*MapOf[K, V]).resize
+//@   requires m != nil && knownTable != nil && tblShapeOf(knownTable) && tblShapeOf(tabOf(m)) && pow2(m.minTableLen) && 0 <= hint && hint <= 2
+//@   effect blocking nolocks
+//@   modifies allmem, allghost
+//@   loop for.loop: invariant shape: newTable != nil && tblShapeOf(newTable) && tblShapeOf(table) && table != nil && 0 <= i
+//@   ensures {C13} monitor.no-lost-wakeup: monitorOK()
+//@   ensures {C13} post.released: nheld() == 0
+
+//@ func (*mapOfTable[K, V]).sumSize
+//@   requires table != nil && wfslice(table.size)
+//@   loop rangeindex.loop: invariant idx: rangeindex >= -1 && rangeindex < len(table.size)
+//@   ensures {C16} effect.nolock: nacquire() == 0 && nblocking() == 0
+
+//@ func (*mapOfTable[K, V]).addSize
+//@   requires table != nil && wfslice(table.size) && pow2(len(table.size))
+//@   modifies allmem
+//@   ensures {C16} effect.nolock: nacquire() == 0 && nblocking() == 0
+
+//@ func (*mapOfTable[K, V]).addSizePlain
+//@   requires table != nil && wfslice(table.size) && pow2(len(table.size))
+//@   effect builder
+//@   modifies allmem
+
+//@ func appendToBucketOf
+//@   requires b != nil
+//@   effect builder
+//@   modifies allmem, allghost
+//@   loop for.body: invariant cursor: b != nil
+//@   loop for.loop: invariant idx: 0 <= i && i <= 5 && b != nil
+//@   ensures {C16} effect.nolock: nacquire() == 0 && nblocking() == 0
+
+//@ func copyBucketOf
+//@   requires b != nil && destTable != nil && tblShapeOf(destTable) && hasher != nil
+//@   effect nolocks builder
+//@   modifies allmem, allghost
+//@   loop for.body: invariant cursor: b != nil && rootb == old(b) && destTable == old(destTable) && tblShapeOf(destTable)
+//@   loop for.loop: invariant idx: 0 <= i && i <= 5 && b != nil && rootb == old(b) && destTable == old(destTable) && tblShapeOf(destTable)
+
+//@ func (*MapOf[K, V]).doCompute
+//@   requires m != nil && valueFn != nil && m.hasher != nil
+//@   requires private tblShapeOf(tabOf(m)) && pow2(m.minTableLen)
+//@   opaque pure valueFn
+//@   modifies allmem, allghost
+//@   loop compute_attempt: invariant {C05} noinvocation: ncb(valueFn) == 0 && nheld() == 0
+//@   loop compute_attempt: invariant shape: tblShapeOf(tabOf(m)) && pow2(m.minTableLen) && m.hasher != nil
+//@   loop for.body: invariant cursor: b != nil && rootb != nil && holds(addr(rootb.mu)) && table != nil && tblShapeOf(table) && (emptyb != nil ==> 0 <= emptyidx && emptyidx < 5) && ncb(valueFn) == 0
+//@   loop for.loop: invariant marks: markOK(markedw) && b != nil && rootb != nil && holds(addr(rootb.mu)) && table != nil && tblShapeOf(table) && (emptyb != nil ==> 0 <= emptyidx && emptyidx < 5) && ncb(valueFn) == 0
+//@   loop for.loop: decreases markedw
+//@   oncall valueFn: {C05,C13} under-root-lock: nheld() == 1 && holds(addr(rootb.mu))
+//@   oncall valueFn: {C05,C04} validated: validated()
+//@   ensures {C05} valueFn.atmostonce: ncb(valueFn) <= 1
+//@   ensures {C05} valueFn.once-unless-loaded: ncb(valueFn) == 1 || loadIfExists
+//@   ensures {C16} fastpath.nolock: loadIfExists && ncall("Load") == 1 && lastret("Load", 1) ==> nacquire() == 0 && nblocking() == 0
+
+//@ func newMapTable
+//@   requires pow2(minTableLen) && minTableLen < 4611686018427387904
+//@   ensures {C11} post.shape: res0 != nil && tblShape(res0) && len(res0.buckets) == minTableLen
+//@   ensures {C16} effect.nolock: nacquire() == 0 && nblocking() == 0
+
+//@ func newMapOfTable
+//@   requires pow2(minTableLen) && minTableLen < 4611686018427387904
+//@   loop rangeindex.loop: invariant idx: rangeindex >= -1 && rangeindex < len(buckets) && wfslice(buckets) && len(buckets) == minTableLen
+//@   ensures {C11} post.shape: res0 != nil && tblShapeOf(res0) && len(res0.buckets) == minTableLen
+//@   ensures {C16} effect.nolock: nacquire() == 0 && nblocking() == 0
+
 //@ -- twin-begin Map
 //@ func (*Map).Load
-//@   requires mapInv(m) && mapRI(m)
+//@   requires mapInv(m)
+//@   requires private mapRI(m)
 //@   let o = old(view(m))[key]
 //@   loop for.body: invariant {C11,C03} walk: own(tab(m), b) && ridx[b] == idxOf(tab(m), key) && (present(o) ==> pos[slotb[tab(m)][key]] >= pos[b])
 //@   loop for.body: decreases clen[rootOf(tab(m), b)] - pos[b]
@@ -71,6 +255,7 @@ package xsync
 //@   loop atomic_snapshot: unroll 1
 //@   ensures {C11,C03} post.ok: ok == present(o)
 //@   ensures {C11,C03} post.value: value == valOr0(o)
+//@   ensures {C16} effect.nolock: nacquire() == 0 && nblocking() == 0
 
 //@ func (*Map).Store
 //@   trusted interface contract (builtin-map semantics); discharged by the table-layer proofs when those are enabled
@@ -110,10 +295,16 @@ package xsync
 //@   ensures mapInv(m)
 
 //@ func (*Map).Range
-//@   trusted interface contract (builtin-map semantics); discharged by the table-layer proofs when those are enabled
-//@   requires m != nil && mapInv(m)
+//@   requires m != nil && mapInv(m) && f != nil
+//@   requires private tblShape(tab(m))
 //@   reenters mapInv(m)
 //@   iterates f over view(m)
+//@   modifies allmem, allghost
+//@   loop rangeindex.loop.0: invariant outer: nheld() == 0 && wfslice(bentries) && len(bentries) == 0
+//@   loop for.body: invariant cursor: b != nil && rootb != nil && holds(addr(rootb.topHashMutex)) && wfslice(bentries)
+//@   loop for.loop: invariant idx: 0 <= i && i <= 3 && b != nil && rootb != nil && holds(addr(rootb.topHashMutex)) && wfslice(bentries)
+//@   loop rangeindex.loop.1: invariant inner: nheld() == 0 && wfslice(bentries)
+//@   oncall f: {C13,C07} visitor.unlocked: nheld() == 0
 
 //@ func (*Map).Clear
 //@   trusted interface contract (builtin-map semantics); discharged by the table-layer proofs when those are enabled
@@ -124,9 +315,12 @@ package xsync
 //@   ensures mapInv(m)
 
 //@ func (*Map).Size
-//@   trusted interface contract (builtin-map semantics); discharged by the table-layer proofs when those are enabled
 //@   requires m != nil && mapInv(m)
-//@   ensures {C08} post.value: res0 == card(view(m))
+//@   requires private tblShape(tab(m))
+//@   loop rangeindex.loop: invariant idx: rangeindex >= -1
+//@   ensures assumed {C08} post.value: res0 == card(view(m))
+//@   ensures {C16} effect.nolock: nacquire() == 0 && nblocking() == 0
+
 //@ -- twin-end Map
 
 //@ -- twin-begin MapOf
